@@ -253,7 +253,11 @@ var (
 func genScalar(t *rapid.T, label string) []byte {
 	var k *big.Int
 	switch rapid.IntRange(0, 9).Draw(t, label+"_shape") {
-	case 8, 9: // extreme machine words (carries between limbs)
+	case 8: // scalars whose points are special: small multiples, (n+-1)/2 (x coordinates with long zero runs), n-2, n-3
+		half := new(big.Int).Rsh(new(big.Int).Add(curveN, big.NewInt(1)), 1)
+		k = []*big.Int{big.NewInt(2), big.NewInt(3), big.NewInt(4), half, new(big.Int).Sub(half, big.NewInt(1)), new(big.Int).Sub(curveN, big.NewInt(2)),
+			new(big.Int).Sub(curveN, big.NewInt(3)), new(big.Int).Lsh(big.NewInt(1), 255), new(big.Int).Lsh(big.NewInt(1), 128)}[rapid.IntRange(0, 8).Draw(t, label+"_special")]
+	case 9: // extreme machine words (carries between limbs)
 		wb := make([]byte, 32)
 		fillWords(t, label, wb)
 		k = new(big.Int).SetBytes(wb)
